@@ -39,6 +39,7 @@ func checkC20(r *core.Run) {
 		}
 		c20Table(r, p, sfx, arch == "386")
 		c20ClassIndex(r, p, sfx)
+		c20Retire(r, p, sfx)
 		if arch == "" {
 			c20Req(r, p)
 			c20Links(r, p)
@@ -683,4 +684,84 @@ func c20ClassIndex(r *core.Run, p *core.Program, sfx string) {
 	}
 	sort.Strings(probs)
 	r.Check(len(probs) == 0, rule, "class-index"+sfx, p.Pos(fn.Pos()), "classIdx[s] = first class with slot size >= s, for every s up to the largest slot size", strings.Join(probs, "; "))
+}
+
+// c20Retire: a page selected for evacuation must stop being the class's current bump page before the first
+// record is moved: classMalloc, which the evacuation itself calls for the new slots, otherwise keeps handing
+// out slots of the page that is being emptied and unmapped.
+func c20Retire(r *core.Run, p *core.Program, sfx string) {
+	const rule = "R-C20-links"
+	fn := p.Func(c20Pkg + ".(*Allocator).defragClass")
+	if fn == nil {
+		r.Fail(rule, "defrag/bump-page-retired"+sfx, "-", "defragClass not found")
+		return
+	}
+	var marks []*ssa.Store
+	an.Instrs(fn, func(i ssa.Instruction) {
+		if st, ok := i.(*ssa.Store); ok {
+			if fa, ok := st.Addr.(*ssa.FieldAddr); ok {
+				if f, _ := an.FieldOf(fa); f == c20Pkg+".page_header.evacuating" && an.Expr(st.Val) == "true" {
+					marks = append(marks, st)
+				}
+			}
+		}
+	})
+	var mallocs []*ssa.BasicBlock
+	for _, c := range an.CallsTo(fn, false, "(*"+c20Pkg+".Allocator).classMalloc") {
+		mallocs = append(mallocs, c.(ssa.Instruction).Block())
+	}
+	reaches := func(from, to *ssa.BasicBlock) bool {
+		seen := map[*ssa.BasicBlock]bool{}
+		var walk func(b *ssa.BasicBlock) bool
+		walk = func(b *ssa.BasicBlock) bool {
+			for _, s := range b.Succs {
+				if s == to {
+					return true
+				}
+				if !seen[s] {
+					seen[s] = true
+					if walk(s) {
+						return true
+					}
+				}
+			}
+			return false
+		}
+		return walk(from)
+	}
+	ok := len(marks) > 0 && len(mallocs) > 0
+	why := ""
+	for _, m := range marks {
+		ad := an.Expr(m.Addr)
+		i, j := strings.Index(ad, "unsafe.Pointer("), strings.LastIndex(ad, ")).evacuating")
+		if i < 0 || j < 0 {
+			ok, why = false, "cannot read the page expression of the mark at "+p.Pos(m.Pos())
+			continue
+		}
+		pg := ad[i+len("unsafe.Pointer(") : j]
+		retired := false
+		an.Instrs(fn, func(x ssa.Instruction) {
+			st, isSt := x.(*ssa.Store)
+			if !isSt || an.Expr(st.Val) != "0" || !strings.HasSuffix(an.Expr(st.Addr), ".pages[param#1]") {
+				return
+			}
+			cur := strings.TrimPrefix(an.Expr(st.Addr), "&")
+			if !an.HasCond(an.DomConds(st.Block()), "("+cur+" == "+pg+")", true) {
+				return
+			}
+			before := true
+			for _, mb := range mallocs {
+				if reaches(mb, st.Block()) {
+					before = false
+				}
+			}
+			if before {
+				retired = true
+			}
+		})
+		if !retired {
+			ok, why = false, "the page marked as evacuating at "+p.Pos(m.Pos())+" is not removed from a.pages[class] before records are moved (classMalloc would keep allocating from it)"
+		}
+	}
+	r.Check(ok, rule, "defrag/bump-page-retired"+sfx, p.Pos(fn.Pos()), "a page being evacuated stops being the current bump page before the first move", why)
 }
